@@ -570,7 +570,9 @@ def unit_layouts(u):
                         res.harness.append("more calls recorded than the generator expects: %s" % c["code"])
                         break
                     exp_src = c["lams"][i]
-                    if f.__name__ == "<lambda>" and not same_code(f.__code__, _lambda_code(exp_src)):
+                    # layouts whose lambda captures a variable spell out what each call has to record
+                    truth_src = c["truths"][i] if "truths" in c else exp_src
+                    if f.__name__ == "<lambda>" and "truths" not in c and not same_code(f.__code__, _lambda_code(exp_src)):
                         res.harness.append("the callable passed is not the lambda the generator believes (%s): %s" % (exp_src, c["code"]))
                         continue
                     payload = dict(engine="T", unit="layouts", layout=c["code"], context=c.get("ctx"), expected=exp_src, caller=caller, label=label, documented=c["documented"], N=u["N"])
@@ -582,7 +584,7 @@ def unit_layouts(u):
                         else:
                             res.layout_stats["raised_undocumented"] += 1
                         continue
-                    P = ast.Call(ast.Name("Select", ast.Load()), [ast.Name("ds", ast.Load()), ast.parse(exp_src, mode="eval").body], [])
+                    P = ast.Call(ast.Name("Select", ast.Load()), [ast.Name("ds", ast.Load()), ast.parse(truth_src, mode="eval").body], [])
                     P2 = ast.Call(ast.Name("Select", ast.Load()), [ast.Name("ds", ast.Load()), got], [])
                     if ast.dump(P) == ast.dump(P2):
                         res.layout_stats["recovered_identical"] += 1
